@@ -7,6 +7,7 @@ package harness
 
 import (
 	"fmt"
+	"sort"
 	"strings"
 	"time"
 
@@ -36,6 +37,8 @@ type expMsg struct {
 	desc     string
 	match    func(m wamp.Message) bool
 	optional bool
+	seq      int    // >0: relative order constraint among a session's expectations of one step ...
+	ordKey   string // ... that share this key (e.g. the same subscription)
 }
 
 type Exp map[int][]expMsg
@@ -57,11 +60,37 @@ type World struct {
 	// killed: session idx -> expected GOODBYE reason ("" = any) for sessions
 	// that some part has determined must be ended by the router in this step.
 	killed map[int]string
-	now    time.Duration
+	// dying: sessions the router is ending in this step through a kill. What
+	// else reaches them between the kill and the end of their session depends on
+	// the order in which the router processes the victims, so only their
+	// GOODBYE is asserted.
+	dying map[int]bool
+	// multiKill: several sessions are being ended by one request; the order in
+	// which the router removes them (hence which of them deletes a shared
+	// subscription/registration) is not determined.
+	multiKill bool
+	now       time.Duration
+}
+
+// routerProc reports whether the router itself provides the wamp.* procedure
+// under the realm's configuration.
+func routerProc(rc *RealmCfg, proc string) bool {
+	switch proc {
+	case "wamp.session.count", "wamp.session.list", "wamp.session.get",
+		"wamp.registration.list", "wamp.registration.lookup", "wamp.registration.match", "wamp.registration.get", "wamp.registration.list_callees", "wamp.registration.count_callees",
+		"wamp.subscription.list", "wamp.subscription.lookup", "wamp.subscription.match", "wamp.subscription.get", "wamp.subscription.list_subscribers", "wamp.subscription.count_suscribers",
+		"wamp.subscription.get_events", "wamp.session.add_testament", "wamp.session.flush_testaments":
+		return true
+	case "wamp.session.kill", "wamp.session.kill_by_authid", "wamp.session.kill_by_authrole", "wamp.session.kill_all":
+		return rc.MetaKill
+	case "wamp.session.modify_details":
+		return rc.MetaModify
+	}
+	return false
 }
 
 func newWorld(c *Case, prop string, st *CaseStats) *World {
-	w := &World{prop: prop, c: c, realms: map[string]*RealmCfg{}, st: st, killed: map[int]string{}}
+	w := &World{prop: prop, c: c, realms: map[string]*RealmCfg{}, st: st, killed: map[int]string{}, dying: map[int]bool{}}
 	for i := range c.Realms {
 		w.realms[c.Realms[i].URI] = &c.Realms[i]
 	}
@@ -170,8 +199,11 @@ func (o *compositeOracle) OnStep(e *Engine, st *StepRec) *Violation {
 		ms := w.sess[sr.S]
 		switch m := sr.Msg.(type) {
 		case *wamp.Hello:
-			if ms.joined || ms.ended {
+			if ms.ended {
 				continue
+			}
+			if ms.joined {
+				break // a second HELLO on an established session: protocol violation (below)
 			}
 			ms.started = true
 			// The handshake outcome is taken from the observation (C09 owns it).
@@ -281,18 +313,33 @@ func (o *compositeOracle) OnStep(e *Engine, st *StepRec) *Violation {
 			}
 		}
 		// sessions a part decided must be killed by this message
-		for idx, reason := range w.killed {
+		var victims []int
+		for idx := range w.killed {
+			victims = append(victims, idx)
+		}
+		sort.Ints(victims)
+		w.multiKill = len(victims) >= 2
+		for _, idx := range victims {
+			reason := w.killed[idx]
 			delete(w.killed, idx)
 			if !w.sess[idx].live() {
 				continue
 			}
-			rs := reason
-			exp.may(idx, "GOODBYE "+rs, func(x wamp.Message) bool {
-				g, ok := x.(*wamp.Goodbye)
-				return ok && (rs == "" || string(g.Reason) == rs)
-			})
+			if reason != "" {
+				found := false
+				for _, x := range st.Recv[idx] {
+					if g, ok := x.(*wamp.Goodbye); ok && string(g.Reason) == reason {
+						found = true
+					}
+				}
+				if !found {
+					return w.fail(st, "session %d was killed through the meta API with reason %q but did not receive that GOODBYE (received %s)", idx, reason, recvString(st.Recv[idx]))
+				}
+			}
+			w.dying[idx] = true
 			o.endSession(st, idx, exp)
 		}
+		w.multiKill = false
 	}
 	for _, p := range o.parts {
 		if v := p.AfterStep(w, st, exp); v != nil {
@@ -306,6 +353,9 @@ func (o *compositeOracle) OnStep(e *Engine, st *StepRec) *Violation {
 		}
 	}
 	ignore := func(s int, m wamp.Message) bool {
+		if w.dying[s] {
+			return true
+		}
 		for _, p := range o.parts {
 			if p.Ignore(w, s, m) {
 				return true
@@ -313,7 +363,14 @@ func (o *compositeOracle) OnStep(e *Engine, st *StepRec) *Violation {
 		}
 		return false
 	}
-	if msg := checkExpectations(exp, st.Recv, len(w.sess), ignore); msg != "" {
+	for idx := range w.dying {
+		delete(exp, idx)
+	}
+	msg := checkExpectations(exp, st.Recv, len(w.sess), ignore)
+	for idx := range w.dying {
+		delete(w.dying, idx)
+	}
+	if msg != "" {
 		return w.fail(st, "%s", msg)
 	}
 	return nil
@@ -360,6 +417,11 @@ func checkExpectations(exp Exp, recv map[int][]wamp.Message, nsess int, ignore f
 		}
 		want := exp[s]
 		used := make([]bool, len(got))
+		type ordered struct {
+			seq, at   int
+			desc, key string
+		}
+		var ord []ordered
 		// mandatory expectations first, then optional ones
 		for pass := 0; pass < 2; pass++ {
 			for _, w := range want {
@@ -371,11 +433,22 @@ func checkExpectations(exp Exp, recv map[int][]wamp.Message, nsess int, ignore f
 					if !used[i] && w.match(g) {
 						used[i] = true
 						found = true
+						if w.seq > 0 {
+							ord = append(ord, ordered{w.seq, i, w.desc, w.ordKey})
+						}
 						break
 					}
 				}
 				if !found && !w.optional {
 					return fmt.Sprintf("session %d: expected %s, received %s", s, w.desc, recvString(got))
+				}
+			}
+		}
+		sort.Slice(ord, func(i, j int) bool { return ord[i].seq < ord[j].seq })
+		for i := 1; i < len(ord); i++ {
+			for j := 0; j < i; j++ {
+				if ord[i].key == ord[j].key && ord[i].at < ord[j].at {
+					return fmt.Sprintf("session %d: %s arrived before %s, expected the opposite order; received %s", s, ord[i].desc, ord[j].desc, recvString(got))
 				}
 			}
 		}
